@@ -53,6 +53,35 @@ Theorem C15_cut_semantics : forall I bs m s b c h bsz w g,
   (placed I bs s w (b_rq b) <= c_size c + g)%N.
 Proof. exact cut_semantics_gap. Qed.
 
+(** ... and on the workers where [h] may run and whose gap is zero, together at most [cut] tasks of the
+    low class are placed (bounded blocker; [zero_sum] adds the placement variables of those workers). *)
+Theorem C15_cut_semantics_zero_gap : forall I bs m s b c h sz,
+  milp_of I bs = Ok m -> feasible m s = true ->
+  In b bs -> count_vars I bs (b_rq b) <> [] -> In c (b_cuts b) -> In (h, Some sz) (c_blockers c) ->
+  blocker_open I bs s (h, Some sz) = true ->
+  (zero_sum I bs s h (b_rq b) (i_workers I) <= Z.of_N (c_size c))%Z.
+Proof. exact cut_semantics_zero. Qed.
+
+(** What the TIGHT row K1 (cut budget shared by all workers where the blocker may run:
+    sum_w max(0, x[w,l] - gap(w)) <= cut) guarantees: every real per-worker cut row, and the low class'
+    total on those workers within [cut + total gap].  The step from there to [inversion = false] is NOT
+    provable: the row system itself (K2, K4, K5) and the mapping (K3) invert priorities even when this
+    row holds - see the refutations. *)
+Theorem C15_tight_no_inversion_partial : forall I bs s l cut h,
+  k1_violated I bs s l cut h = false ->
+  (forall w, In w (i_workers I) -> capable I w h = true -> (placed I bs s w l <= cut + gap_or0 I w h l)%N)
+  /\ (capable_total I bs s l h (i_workers I) <= cut + gap_total I l h (i_workers I))%N.
+Proof. exact tight_k1_guarantees. Qed.
+
+(** Candidate exact class (one worker, ONE resource kind, two request classes): not proved in this
+    phase.  With two resource kinds the class is already inexact (K4 witness: one worker, cpus + gpus). *)
+Definition C15_no_inversion_exact_class_full : Prop :=
+  forall I bs m s d w,
+    i_workers I = [w] -> i_nres I = 1%N -> length (i_classes I) = 2%nat -> inst_wf I ->
+    create_task_batches I = Ok bs -> milp_of I bs = Ok m -> feasible m s = true ->
+    (forall s', feasible m s' = true -> (objective m s' <= objective m s)%Z) ->
+    mapping_ok I bs s d = true -> inversion I d = false.
+
 (** C05, row-system half (used by the cluster component): a feasible point of the row system, turned
     into a dispatch accepted by [mapping_ok], never overbooks a worker, and tasks are only placed where
     the request fits the free resources, is not blocked and the worker has enough remaining time. *)
@@ -78,4 +107,6 @@ Print Assumptions C15_K3_refuted.
 Print Assumptions C15_K4_refuted.
 Print Assumptions C15_K5_refuted.
 Print Assumptions C15_cut_semantics.
+Print Assumptions C15_cut_semantics_zero_gap.
+Print Assumptions C15_tight_no_inversion_partial.
 Print Assumptions C05_feasible_no_overbook.
